@@ -29,6 +29,7 @@ class Ctx:
         self.known_hits = {}        # signature -> summary
         self.fixed_hits = {}
         self.notes = []
+        self.shard = 0              # > 0: a worker process of a sharded thorough run (no corpus, derived seed)
 
     def quick(self):
         return self.tier == "quick"
@@ -119,7 +120,7 @@ def run_stream(ctx, mod, stream, driver, stats, budget_scale=1.0, oracle_only=Fa
         "evaluations": 0, "nontrivial_hashes": set(), "disagreements": [], "features": {}, "samples": [],
         "impl_errors": [], "corpus": 0,
     })
-    cases = [("corpus", c) for c in stream.corpus]
+    cases = [] if ctx.shard else [("corpus", c) for c in stream.corpus]
     st["corpus"] = len(cases)
     i = 0
     done = False
@@ -212,6 +213,119 @@ def failing_input_search(ctx, mod, stream, driver, stats, disagreements):
     return len(ctx.violations) + len(ctx.known_hits) > before
 
 
+def run_streams(ctx, mod, broken_obligation):
+    """step 4 of a check: every correspondence stream + oracle of the property, in this process"""
+    stats = {}
+    drivers = {}
+
+    def driver_for(stream):
+        path = getattr(stream, "driver", None) or getattr(mod, "DRIVER", None)
+        if not path:
+            return None
+        if path not in drivers:
+            drivers[path] = C.LeanDriver(path)
+        return drivers[path]
+    streams = mod.streams(ctx)
+    try:
+        for s in streams:
+            driver = driver_for(s)
+            s.setup(ctx)
+            try:
+                st = run_stream(ctx, mod, s, driver, stats, budget_scale=4.0 if broken_obligation else 1.0)
+                if st["disagreements"]:
+                    # never silent, never by itself a property violation: search for a failing input first
+                    if not ctx.violations:
+                        failing_input_search(ctx, mod, s, driver, stats, st["disagreements"])
+                    if not ctx.violations:
+                        report_unexplained(ctx, f"correspondence stream {s.name}", st["disagreements"][:3])
+                if st["impl_errors"] and not ctx.violations:
+                    # the real code could not be observed on generated inputs (it crashed outside anything the
+                    # stream classifies): the correspondence no longer checks
+                    report_unexplained(ctx, f"correspondence stream {s.name} (implementation not observable)",
+                                       st["impl_errors"][:3])
+            finally:
+                s.teardown(ctx)
+        if broken_obligation and not ctx.violations:
+            report_unexplained(ctx, broken_obligation[0], broken_obligation[1])
+    finally:
+        for d in drivers.values():
+            d.close()
+    return stats
+
+
+def _shard_dump(ctx, stats, out):
+    js = {}
+    for name, st in stats.items():
+        js[name] = dict(st, nontrivial_hashes=sorted(st["nontrivial_hashes"]), samples=[],
+                        disagreements=[{"diff": d.get("diff")} for d in st["disagreements"][:3]], impl_errors=st["impl_errors"][:3])
+    payload = {
+        "stats": js, "known_hits": ctx.known_hits,
+        "violations": [[f.to_json() if f is not None else None, str(p), tail] for f, p, tail in ctx.violations],
+    }
+    with open(out, "w") as fh:
+        json.dump(payload, fh, default=str)
+
+
+def shard_main(prop, tier, seed, k, out):
+    """worker of a sharded thorough run: streams only (the parent built and audited the theorems)"""
+    ctx = Ctx(prop, tier, seed * 1000003 + k)
+    ctx.shard = k
+    mod = importlib.import_module(f"props.{prop.lower()}")
+    stats = run_streams(ctx, mod, None)
+    _shard_dump(ctx, stats, out)
+    return 0
+
+
+def _merge_shard(ctx, stats, payload):
+    for name, st in payload["stats"].items():
+        cur = stats.setdefault(name, {"evaluations": 0, "nontrivial_hashes": set(), "disagreements": [], "features": {},
+                                      "samples": [], "impl_errors": [], "corpus": 0})
+        cur["evaluations"] += st["evaluations"]
+        cur["nontrivial_hashes"] |= set(st["nontrivial_hashes"])
+        for ft, n in st["features"].items():
+            cur["features"][ft] = cur["features"].get(ft, 0) + n
+        cur["disagreements"] += st["disagreements"]
+        cur["impl_errors"] += st["impl_errors"]
+    for sig, summary in payload["known_hits"].items():
+        ctx.known_hits.setdefault(sig, summary)
+    for fj, path, tail in payload["violations"]:
+        f = C.Failure(fj["signature"], fj["message"], fj.get("details")) if fj else None
+        if f is not None and any(g is not None and g.signature == f.signature for g, _, _ in ctx.violations):
+            continue
+        ctx.violations.append((f, path, tail))
+
+
+def run_streams_sharded(ctx, mod, broken_obligation, nshards):
+    """thorough tier: shard 0 (corpus + base seed) in this process, shards 1..n-1 as worker processes with derived
+    seeds; everything they found is merged (evaluations add up, violations are deduplicated by signature)"""
+    import subprocess
+    import tempfile
+    tmpd = tempfile.mkdtemp(prefix="lccverif-shards-")
+    procs = []
+    for k in range(1, nshards):
+        out = os.path.join(tmpd, f"shard{k}.json")
+        cmd = [sys.executable, os.path.abspath(__file__), ctx.prop, "--tier", ctx.tier, "--shard", str(k), "--shard-out", out]
+        procs.append((k, out, subprocess.Popen(cmd, cwd=str(C.VERIF), stdout=subprocess.PIPE, stderr=subprocess.STDOUT, text=True)))
+    try:
+        stats = run_streams(ctx, mod, broken_obligation)
+        for k, out, pr in procs:
+            try:
+                log, _ = pr.communicate(timeout=7200)
+            except subprocess.TimeoutExpired:
+                pr.kill()
+                raise C.InfraError(f"shard {k} timed out")
+            if pr.returncode != 0 or not os.path.exists(out):
+                raise C.InfraError(f"shard {k} failed (exit {pr.returncode}):\n{(log or '')[-3000:]}")
+            _merge_shard(ctx, stats, json.load(open(out)))
+    finally:
+        for _, _, pr in procs:
+            if pr.poll() is None:
+                pr.kill()
+        import shutil
+        shutil.rmtree(tmpd, ignore_errors=True)
+    return stats
+
+
 def check(prop, tier, seed):
     ctx = Ctx(prop, tier, seed)
     mod = importlib.import_module(f"props.{prop.lower()}")
@@ -261,41 +375,11 @@ def check(prop, tier, seed):
     cov["lean"] = {"leanchecker": leanchecker, "theorems": names, "axioms_used": sorted({a for v in ax.values() for a in v}), "tables": table_info}
 
     # ---- 4. correspondence streams + oracles -------------------------------------------------
-    stats = {}
-    drivers = {}
-
-    def driver_for(stream):
-        path = getattr(stream, "driver", None) or getattr(mod, "DRIVER", None)
-        if not path:
-            return None
-        if path not in drivers:
-            drivers[path] = C.LeanDriver(path)
-        return drivers[path]
-    streams = mod.streams(ctx)
-    try:
-        for s in streams:
-            driver = driver_for(s)
-            s.setup(ctx)
-            try:
-                st = run_stream(ctx, mod, s, driver, stats, budget_scale=4.0 if broken_obligation else 1.0)
-                if st["disagreements"]:
-                    # never silent, never by itself a property violation: search for a failing input first
-                    if not ctx.violations:
-                        failing_input_search(ctx, mod, s, driver, stats, st["disagreements"])
-                    if not ctx.violations:
-                        report_unexplained(ctx, f"correspondence stream {s.name}", st["disagreements"][:3])
-                if st["impl_errors"] and not ctx.violations:
-                    # the real code could not be observed on generated inputs (it crashed outside anything the
-                    # stream classifies): the correspondence no longer checks
-                    report_unexplained(ctx, f"correspondence stream {s.name} (implementation not observable)",
-                                       st["impl_errors"][:3])
-            finally:
-                s.teardown(ctx)
-        if broken_obligation and not ctx.violations:
-            report_unexplained(ctx, broken_obligation[0], broken_obligation[1])
-    finally:
-        for d in drivers.values():
-            d.close()
+    nshards = int(os.environ.get("VERIF_SHARDS", "6" if tier == "thorough" else "1") or 1)
+    if nshards > 1:
+        stats = run_streams_sharded(ctx, mod, broken_obligation, nshards)
+    else:
+        stats = run_streams(ctx, mod, broken_obligation)
 
     # ---- 5. evidence ---------------------------------------------------------------------------
     evaluations = sum(s["evaluations"] for s in stats.values())
@@ -372,12 +456,16 @@ def main():
     ap.add_argument("prop")
     ap.add_argument("--tier", default=os.environ.get("VERIF_TIER", "quick"), choices=["quick", "thorough"])
     ap.add_argument("--replay")
+    ap.add_argument("--shard", type=int, default=0)
+    ap.add_argument("--shard-out")
     a = ap.parse_args()
     seed = int(os.environ.get("VERIF_SEED", "0") or 0)
     os.environ[C.HOOK_GUARD] = "1"
     try:
         if a.replay:
             sys.exit(replay(a.prop, a.replay))
+        if a.shard:
+            sys.exit(shard_main(a.prop, a.tier, seed, a.shard, a.shard_out))
         sys.exit(check(a.prop, a.tier, seed))
     except C.InfraError as e:
         print(f"INFRA-ERROR [{a.prop}]: {e}", file=sys.stderr)
